@@ -568,7 +568,12 @@ func (p *PathState) failed(in *Interp, id string, neg *smt.Term) {
 		outside = append(outside, c.Not(in.boolTerm(r.cond)))
 	}
 	r, m := p.niceModel(in, outside...)
-	if r == smt.Sat || (r == smt.Unknown && len(regions) == 0) {
+	if r == smt.Unknown && len(regions) == 0 {
+		p.ObUnknown++
+		p.Notes = append(p.Notes, "no model obtained for violated assertion "+id+" (solver unknown)")
+		return
+	}
+	if r == smt.Sat {
 		p.Violations = append(p.Violations, Violation{Assert: id, Model: p.modelOf(in, m), Decisions: append([]Decision{}, p.Trace...), PathID: p.ID, PCSize: len(p.PC)})
 		return
 	}
